@@ -28,18 +28,21 @@ Excess(inner, ctx) ==
     [] inner.k = "ifexp"  -> FALSE
     [] OTHER              -> TRUE
 
+(* parenthesise_double_minus: `- -x` would print as `--x`, a comment *)
+DoubleMinus(o, e) ==
+  IF o = "-" /\ (\/ e.k = "un" /\ e.a = "-"
+                 \/ e.k = "par" /\ e.c[1].k = "un" /\ e.c[1].a = "-")
+  THEN Un("-", Par(e))
+  ELSE Un(o, e)
+
 RECURSIVE FmtSingle(_, _)
 FmtSingle(t, ctx) ==
   CASE t.k = "par" ->
          IF Excess(t.c[1], ctx) /\ ctx \notin KeepCtx
-         THEN FmtSingle(t.c[1], "Standard")                   \* NB: re-enters with Standard
+         THEN FmtSingle(t.c[1], ctx)                          \* the context is kept for the inner expression
          ELSE Par(FmtSingle(t.c[1], "Standard"))
     [] t.k = "un"  ->
-         LET e == FmtSingle(t.c[1], "UnaryOrBinary") IN
-         IF t.a = "-" /\ (\/ e.k = "un" /\ e.a = "-"
-                          \/ e.k = "par" /\ e.c[1].k = "un" /\ e.c[1].a = "-")
-         THEN Un("-", Par(e))                                  \* the `- -x` repair
-         ELSE Un(t.a, e)
+         DoubleMinus(t.a, FmtSingle(t.c[1], "UnaryOrBinary"))
     [] t.k = "bin" -> Bin(t.a, FmtSingle(t.c[1], LhsCtx(t.a)), FmtSingle(t.c[2], "UnaryOrBinary"))
     [] t.k = "cast" -> N("cast", "", <<FmtSingle(t.c[1], "TypeAssertion"), t.c[2]>>)
     [] t.k = "ifexp" -> N("ifexp", "", [i \in DOMAIN t.c |-> FmtSingle(t.c[i], "Standard")])
@@ -51,18 +54,19 @@ FmtHang(t, ctx) ==
          IF Excess(t.c[1], ctx) /\ ctx \notin KeepCtx
          THEN FmtHang(t.c[1], ctx)                             \* NB: keeps ctx (single-line path resets it)
          ELSE {Par(FmtSingle(t.c[1], "Standard"))} \cup {Par(x) : x \in FmtHang(t.c[1], "Standard")}
-    [] t.k = "un"  -> {Un(t.a, x) : x \in FmtHang(t.c[1], "UnaryOrBinary")}    \* NB: no `- -x` repair here
-    [] t.k = "bin" -> {Bin(t.a, l, r) : l \in HangBinop(t.c[1], "UnaryOrBinary"),
+    [] t.k = "un"  -> {DoubleMinus(t.a, x) : x \in FmtHang(t.c[1], "UnaryOrBinary")}
+    [] t.k = "bin" -> {Bin(t.a, l, r) : l \in HangBinop(t.c[1], IF t.a = "^" THEN "BinaryLHSExponent" ELSE "UnaryOrBinary"),
                                         r \in HangBinop(t.c[2], "Standard")}
     [] t.k = "cast" -> {N("cast", "", <<x, t.c[2]>>) : x \in FmtHang(t.c[1], "TypeAssertion")}
     [] OTHER       -> {FmtSingle(t, ctx)}
 
-HangBinop(t, ectx) ==
+HangBinop(t, ectx0) ==
   IF t.k = "bin"
-  THEN LET ls == HangBinop(t.c[1], ectx) \cup {FmtSingle(t.c[1], LhsCtx(t.a))}
+  THEN LET ectx == IF ectx0 = "Standard" THEN "UnaryOrBinary" ELSE ectx0   \* operands of a binary operator
+           ls == HangBinop(t.c[1], ectx) \cup {FmtSingle(t.c[1], LhsCtx(t.a))}
            rs == HangBinop(t.c[2], ectx) \cup {FmtSingle(t.c[2], "UnaryOrBinary")}
        IN  {Bin(t.a, l, r) : l \in ls, r \in rs}
-  ELSE FmtHang(t, ectx)
+  ELSE FmtHang(t, ectx0)
 
 (***************************************************************************)
 (* Expression contexts: where the expression sits in a statement.           *)
@@ -123,7 +127,7 @@ CtxPath(c) ==
     [] c = "ifexp_then" -> <<1, 2, 1, 2>>
     [] c = "ifexp_else" -> <<1, 2, 1, 3>>
 
-CondStrip(e) == IF e.k = "par" THEN e.c[1] ELSE e
+CondStrip(e) == Unwrap(e)        \* remove_condition_parentheses strips every pair
 
 (* The set of expression trees the model says the code can print for e in context c *)
 Pred(c, e) ==
